@@ -286,7 +286,8 @@ class NpSym:
         node = cref.node
         decos = {(d.id if isinstance(d, ast.Name) else d.attr if isinstance(d, ast.Attribute) else getattr(getattr(d, "func", None), "id", "")) for d in node.decorator_list}
         obj = Instance(cref.mod, node.name)
-        if "dataclass" in decos:
+        is_named_tuple = any((b.id if isinstance(b, ast.Name) else b.attr if isinstance(b, ast.Attribute) else "") == "NamedTuple" for b in node.bases)
+        if "dataclass" in decos or is_named_tuple:
             fields = [st for st in node.body if isinstance(st, ast.AnnAssign) and isinstance(st.target, ast.Name)]
             if len(args) > len(fields):
                 raise AnalysisError(f"npsym: too many arguments for dataclass {node.name}")
@@ -1040,7 +1041,10 @@ class _Frame:
             return I.class_hook(f, args, kwargs)
         if isinstance(f, ClassRef):
             if args or kwargs or any(isinstance(st, ast.FunctionDef) and st.name == "__init__" for st in f.node.body):
-                if getattr(I, "construct_instances", False):
+                record = any((b.id if isinstance(b, ast.Name) else b.attr if isinstance(b, ast.Attribute) else "") == "NamedTuple" for b in f.node.bases) or \
+                    any((d.id if isinstance(d, ast.Name) else d.attr if isinstance(d, ast.Attribute) else getattr(getattr(d, "func", None), "id", "")) == "dataclass"
+                        for d in f.node.decorator_list)
+                if getattr(I, "construct_instances", False) or record:
                     return I.construct(f, args, kwargs)
                 raise AnalysisError(f"npsym: construction of `{f.node.name}` with arguments / an __init__")
             ns = types.SimpleNamespace()
@@ -1246,12 +1250,20 @@ class _Frame:
             return self.method_call(args[0], n, args[1:], kwargs, e)
         if n in ("clamp", "clamp_min", "clamp_max", "relu", "argmax", "argmin", "sign") and args and isinstance(args[0], np.ndarray):
             return self.method_call(args[0], n, args[1:], kwargs, e)
+        if n in ("maximum", "minimum") and len(args) == 2 and all(isinstance(x, np.ndarray) and x.dtype != object for x in args):
+            return np.maximum(*args) if n == "maximum" else np.minimum(*args)
         if n in ("maximum", "minimum") and len(args) == 2:
             a, b = np.broadcast_arrays(I._obj(np.asarray(args[0])), I._obj(np.asarray(args[1])))
             return self._numeric_pick(a, b, n == "maximum", e)
         if n in ("maximum", "minimum", "max", "min", "clamp", "amax", "amin"):
             raise AnalysisError(f"npsym: torch.{n} on symbolic data")
-        if n in ("unsqueeze", "squeeze", "reshape", "flatten", "repeat_interleave", "index_select", "gather", "outer", "flip", "roll", "cumsum"):
+        if n == "unique":
+            x = args[0]
+            if x.dtype == object:
+                raise AnalysisError("npsym: torch.unique of symbolic data")
+            ax = kwargs.get("dim")
+            return np.unique(x, axis=None if ax is None else self._int(ax))
+        if n in ("unsqueeze", "squeeze", "reshape", "flatten", "repeat_interleave", "index_select", "gather", "outer", "flip", "roll", "cumsum", "nonzero", "masked_fill"):
             return self.method_call(args[0], n, args[1:], kwargs, e)
         if n == "device":
             return TorchMarker("device")
